@@ -126,7 +126,7 @@ impl Model {
     }
 }
 
-const STEP_BOUND: usize = 20_000;
+const STEP_BOUND: usize = 4_000;
 
 pub fn run_case(case: &SimCase) -> SimRun {
     let g = &case.graph;
